@@ -44,6 +44,10 @@ func (a *c08Acct) Total(xs []int) int {
 	a.gotN = len(xs)
 	return t
 }
+func (a *c08Acct) Scale(f float64, names []string) float64 {
+	a.calls++
+	return f * float64(len(names))
+}
 func (a *c08Acct) Check(n int) (int, error) {
 	a.calls++
 	if n < 0 {
